@@ -1305,6 +1305,11 @@ class SplitKey(Key):
     @prime_field_size.setter
     def prime_field_size(self, value):
         if (value is None) or (isinstance(value, six.integer_types)):
+            # The column is a 64-bit integer; a larger value cannot be stored.
+            if (value is not None) and not (-2 ** 63 <= value < 2 ** 63):
+                raise ValueError(
+                    "The prime field size must fit a signed 64-bit integer."
+                )
             self._prime_field_size = value
         else:
             raise TypeError("The prime field size must be an integer.")
